@@ -108,6 +108,24 @@ func isFlagSet(fs *flag.FlagSet, name string) bool {
 
 // contractsFor selects the contracts that carry the property.
 func contractsFor(w *World, prop string) []*Contract {
+	// clauses written "for Cxx: ..." belong to those properties only
+	if prop != "all" {
+		for _, c := range w.Contracts {
+			kept := c.Clauses[:0:0]
+			for _, cl := range c.Clauses {
+				ok := len(cl.Only) == 0
+				for _, p := range cl.Only {
+					if p == prop {
+						ok = true
+					}
+				}
+				if ok {
+					kept = append(kept, cl)
+				}
+			}
+			c.Clauses = kept
+		}
+	}
 	var out []*Contract
 	for _, c := range w.Contracts {
 		if c.Extern || c.has("trusted") || (c.has("inline") && len(c.of("ensures", -1)) == 0) {
